@@ -19,7 +19,7 @@
 
    ORACLE-DECIDED part (labelled as such; real-valued geometry is outside what TLC can own):
    scenes of the family "oracle" (regular prisms with any number of sides and orientation,
-   parallelepipeds, general rotations) arrive with the expected label of every probe computed
+   parallelepipeds, general trapezoids built with GenPrism::from_trap, general rotations) arrive with the expected label of every probe computed
    by analytic membership functions in the harness, written from the documented definitions
    (`ora`; -1 = within 1e-5 of a face: excluded).  TLC only compares:
      C09.OraclePointInVolume    reported label # oracle label
